@@ -25,6 +25,7 @@ BEATS = [
 # beats whose denominators divide 192 but not 48 (32, 64, 96, 192), explored in a layer of their own
 DENOM_BEATS = [Fraction(0), Fraction(5, 32), Fraction(1, 3), Fraction(95, 96), Fraction(135, 64), Fraction(767, 192), Fraction(17, 4)]
 BEATS = sorted(BEATS)
+REUSE_MAX = [2]
 # denominators of beats for the Q layer (every divisor of 192 that a row count can need, and off-grid ones)
 Q_DENOMS = [1, 2, 3, 4, 5, 6, 7, 8, 10, 12, 16, 24, 32, 48, 64, 96, 192]
 Q_DENOMS_SMALL = [2, 3, 4, 5, 8, 12, 16, 24, 32, 48]
@@ -58,7 +59,7 @@ def row_widths(text):
     return w
 
 
-def check_stream(stream, cols):
+def check_stream(stream, cols, reuse=True):
     fails = []
 
     def fail(clause, expected, observed):
@@ -99,6 +100,49 @@ def check_stream(stream, cols):
         again = f"{type(e).__name__}: {e}"
     if again != text:
         fail("rebuilding note data from its own notes changes the text", text, again)
+    if reuse:
+        fails += reuse_clauses(nd, [N.to_impl(n) for n in stream], cols, text)
+    return fails
+
+
+def reuse_clauses(nd, inotes, cols, text):
+    """
+    The note data object is a value: reading it again - after a complete pass, after an abandoned pass, through
+    two iterators at once - gives the same notes, and from_notes gives the same text whatever kind of iterable
+    carries the notes (list, tuple, one-shot iterator, generator, the NoteData object itself).
+    """
+    fails = []
+
+    def fail(clause, expected, observed):
+        fails.append({"clause": clause, "expected": core.jsonable(expected), "observed": core.jsonable(observed)})
+
+    try:
+        fresh = NoteData(str(nd))  # never read before
+        it = iter(fresh)
+        next(it, None)  # abandoned after one note
+        second = list(fresh)
+        pairs = list(zip(fresh, fresh))
+        third = list(nd)  # the object that has been read completely before
+    except core.WatchdogTimeout:
+        raise
+    except Exception as e:
+        fail("reading the note data again raised", "notes", f"{type(e).__name__}: {e}")
+        return fails
+    if second != inotes:
+        fail("after an abandoned pass the note data reads differently", len(inotes), [str(n) for n in second[:6]])
+    if [a for a, _ in pairs] != inotes or [b for _, b in pairs] != inotes:
+        fail("two iterators over one note data object disturb each other", len(inotes), len(pairs))
+    if third != inotes:
+        fail("a later pass over the note data reads differently", len(inotes), [str(n) for n in third[:6]])
+    for label, make in (("generator", lambda: (n for n in inotes)), ("the NoteData object itself", lambda: nd)):
+        try:
+            t = str(NoteData.from_notes(make(), cols))
+        except core.WatchdogTimeout:
+            raise
+        except Exception as e:
+            t = f"{type(e).__name__}: {e}"
+        if t != text:
+            fail(f"from_notes gives another text when the notes come as {label}", text[:200], t[:200])
     return fails
 
 
@@ -122,6 +166,8 @@ def check_text(text):
         fails.append({"clause": "re-encoding is not stable after the first pass", "expected": t1[:200], "observed": t2[:200]})
     if nd1.columns != nd0.columns:
         fails.append({"clause": "re-encoding changed the column count", "expected": nd0.columns, "observed": nd1.columns})
+    # the (possibly non-canonical) source object itself, read again and used as from_notes input
+    fails += reuse_clauses(nd0, notes0, nd0.columns, t1)
     return fails
 
 
@@ -153,7 +199,8 @@ def explore_shard(acc, shard):
             stream = [note_at(i, pos[i]) for i in idxs]
             case = {"kind": "stream", "cols": cols, "stream": fmt_stream(stream)}
             core.guard_cheap(acc, case)
-            fails = check_stream(stream, cols)
+            # the re-reading / input-kind clauses on every stream of <= 2 notes (quick) or every stream (thorough)
+            fails = check_stream(stream, cols, reuse=len(stream) <= REUSE_MAX[0])
             acc.count("evaluations")
             acc.count("states")
             if len(stream) >= 2:
@@ -328,6 +375,7 @@ def explore_shard(acc, shard):
 
 def explore(run):
     shards = []
+    REUSE_MAX[0] = 99 if run.thorough() else 2
     plan = [(1, 4, 4), (2, 3, 4), (3, 3, 3)]  # (columns, max notes quick, max notes thorough)
     for cols, q, t in plan:
         maxlen = t if run.thorough() else q
@@ -357,7 +405,9 @@ def explore(run):
         + " (built note by note; every prefix is a state); V: all 9 types x 4 keysound values on 1- and 2-note streams; "
         "W: 1..16 columns; D: beats with denominators 32..192; Q: every pair of beat denominators from "
         + ",".join(map(str, Q_DENOMS)) + " (and triples of the smaller ones) in one measure, first and second measure; T: decode/re-encode of generated texts (rows-per-measure shapes x players x styles) and corpus charts. "
-        "Non-trivial = at least two notes, or a keysound, or a generated/corpus text."
+        "Every note data object is also read again (after an abandoned pass, through two iterators at once) and fed back to from_notes as a generator and as itself"
+        + (" (layer S: streams of <= 2 notes only). " if not run.thorough() else ". ")
+        + "Non-trivial = at least two notes, or a keysound, or a generated/corpus text."
     )
     run.assumptions = [
         "streams satisfy from_notes' documented preconditions: sorted by (player, beat, column), one note per cell, beats >= 0, 0 <= column < columns",
